@@ -147,6 +147,9 @@ func c15Exchanges(e *vh.Env, c c15Case) []c15Ex {
 		sc2 := body("application/json", n, false, "cl", 1)
 		sc2.Headers = append(sc2.Headers, [2]string{"Content-Encoding", "br"})
 		add(fmt.Sprintf("backend says br %d", n), "GET", "gzip, br", true, sc2)
+		// a client that sends no Accept-Encoding at all gets the backend's encoded bytes as they are
+		add(fmt.Sprintf("backend already gzip %d, no Accept-Encoding", n), "GET", "", false, sc)
+		add(fmt.Sprintf("backend says br %d, Accept-Encoding: identity", n), "GET", "identity", true, sc2)
 		// the same without an explicit WriteHeader (reaches the plugin as such at handler level)
 		sc3, sc4 := sc, sc2
 		sc3.Implicit, sc4.Implicit = true, true
@@ -254,6 +257,12 @@ func init() {
 					cfg := baseConfig(c.Strat, []*vh.Backend{be})
 					cfg.Plugins = c15Chain(c.Chain, c, with)
 					cfg.Server.Timeouts = config.TimeoutConfig{Read: 60, Write: 60, BackendRead: 60}
+					if (c.Level+c.MinSize+len(c.Chain))%2 == 0 {
+						// the balancer's optional features on, thresholds out of reach
+						cfg.CircuitBreaker = config.CircuitBreakerConfig{Enabled: true, FailureThreshold: 1000000, SuccessThreshold: 1, IntervalSeconds: 3600, TimeoutSeconds: 60}
+						cfg.HealthChecks.Passive = config.PassiveHealthCheckConfig{Enabled: true, UnhealthyThreshold: 1000000, UnhealthyTimeout: 30}
+						cfg.RateLimit = config.RateLimitConfig{Enabled: true, MaxTokens: 1000000, RefillRate: 1}
+					}
 					return startSys(cfg, []*vh.Backend{be}, true)
 				}
 				s1, err := mk(false)
